@@ -31,7 +31,8 @@ structure Valid : Prop where
   sort_valid : (c.topP ≤ 0 ∨ 1 ≤ c.topP) ∨ SortValid n (afterK clip c n x mask kth).get σ
 
 theorem lg_eq (j : Nat) : (processLogits w clip c n x mask kth σ).lg j =
-    (topPStage n w c.topP σ (afterK clip c n x mask kth)).get j := rfl
+    (topPStage n w c.topP σ (afterK clip c n x mask kth)).get j := by
+  simp only [processLogits, runStages_canonical]
 
 theorem prob_eq (j : Nat) : (processLogits w clip c n x mask kth σ).prob j =
     wO w ((processLogits w clip c n x mask kth σ).lg j) /
@@ -194,7 +195,7 @@ theorem topp_mass_ge (hw : ExpLike w) (hv : Valid clip c n x mask kth σ) (hp1 :
   have h4 : ((afterK clip c n x mask kth).get j).isSome = true := by
     rw [afterK_of_max clip c n x mask kth hv.kth_valid hmax]; exact hs
   have := topp_mass_core w n σ (afterK clip c n x mask kth) c.topP hw hv.sort_valid hp1 j hj h4
-  simp only [Spec.Decode.ToppMass, sumN_eq_sum, add_zero]
+  simp only [Spec.Decode.ToppMass, sumN_eq_sum, add_zero, Out.kept, lg_eq]
   exact this
 
 /-- weights are monotone in the logit (`-inf` lowest) -/
@@ -248,57 +249,110 @@ resampling loop accepts it at once. -/
 theorem sample_feasible (hw : ExpLike w) (hv : Valid clip c n x mask kth σ) (a : Nat)
     (ha : SampleValid n (processLogits w clip c n x mask kth σ).prob a) (rest : List Nat) :
     Spec.Decode.SampleOk n mask (processLogits w clip c n x mask kth σ).kept a ∧
-      sampleLoop mask (a :: rest) = some a := by
+      sampleLoop mask (a :: rest) = .ok a := by
   obtain ⟨han, hpos⟩ := ha
   have hk := (kept_iff_pos hw hv a).mpr hpos
   obtain ⟨v, hva⟩ := Option.isSome_iff_exists.mp (by simpa [Out.kept] using hk)
   have hma := (lg_some w clip c n x mask kth σ hva).1
-  exact ⟨⟨han, hma, hk⟩, by simp [sampleLoop, hma]⟩
+  exact ⟨⟨han, hma, hk⟩, by simp [sampleLoop, contCond_eq, rowFlag_eq, hma]⟩
 
 omit [Field K] [LinearOrder K] [IsStrictOrderedRing K] in
-/-- the resampling loop can only return feasible actions, whatever is drawn -/
+/-- the resampling loop can only return feasible actions, whatever is drawn (and whatever the loop
+condition: the assertion after the loop guards the return) -/
 theorem sampleLoop_feasible (mask : Nat → Bool) (draws : List Nat) (a : Nat)
-    (h : sampleLoop mask draws = some a) : mask a = true := by
+    (h : sampleLoop mask draws = .ok a) : mask a = true := by
   induction draws with
   | nil => simp [sampleLoop] at h
   | cons d rest ih =>
     simp only [sampleLoop] at h
     split at h
-    · rename_i hm; cases h; exact hm
     · exact ih h
+    · split at h
+      · rename_i hm; cases h; exact hm
+      · cases h
 
 omit [Field K] [LinearOrder K] [IsStrictOrderedRing K] in
-/-- the batched resampling loop (`.any()` over the batch, all rows redrawn) returns a draw vector in
-which every row is feasible -/
+/-- the loop of `sampling` only exits on a feasible draw, so the assertion after it never fires
+(this needs the loop condition to test the *negated* mask) -/
+theorem sampleLoop_never_asserts (mask : Nat → Bool) (draws : List Nat) :
+    sampleLoop mask draws ≠ .assertFail := by
+  induction draws with
+  | nil => simp [sampleLoop]
+  | cons d rest ih =>
+    simp only [sampleLoop, contCond_eq, rowFlag_eq]
+    cases hm : mask d <;> simp [ih]
+
+omit [Field K] [LinearOrder K] [IsStrictOrderedRing K] in
+/-- the batched resampling loop returns a draw vector in which every row is feasible -/
 theorem sampleLoopB_feasible (masks : List (Nat → Bool)) (draws : List (List Nat)) (v : List Nat)
-    (h : sampleLoopB masks draws = some v) : ∀ ma ∈ masks.zip v, ma.1 ma.2 = true := by
+    (h : sampleLoopB masks draws = .ok v) : ∀ ma ∈ masks.zip v, ma.1 ma.2 = true := by
   induction draws with
   | nil => simp [sampleLoopB] at h
   | cons d rest ih =>
     simp only [sampleLoopB] at h
     split at h
-    · rename_i hall; cases h
-      simpa [List.all_eq_true] using hall
     · exact ih h
+    · split at h
+      · rename_i hall; cases h
+        simpa [List.all_eq_true] using hall
+      · cases h
+
+omit [Field K] [LinearOrder K] [IsStrictOrderedRing K] in
+/-- the batched loop runs `while (~mask)[selected].any()`: it exits only when every row is feasible, so
+the assertion after it never fires (this needs the reduction to be `.any()`: with `.all()` a batch with one
+feasible and one infeasible row would leave the loop and trip the assertion) -/
+theorem sampleLoopB_never_asserts (masks : List (Nat → Bool)) (draws : List (List Nat)) :
+    sampleLoopB masks draws ≠ .assertFail := by
+  induction draws with
+  | nil => simp [sampleLoopB]
+  | cons d rest ih =>
+    simp only [sampleLoopB, contCond_eq]
+    split
+    · exact ih
+    · rename_i hc
+      have hall : (masks.zip d).all (fun ma => ma.1 ma.2) = true := by
+        rw [List.all_eq_true]
+        intro ma hma
+        by_contra hf
+        apply hc
+        rw [List.any_eq_true]
+        exact ⟨rowFlag ma.1 ma.2, List.mem_map.mpr ⟨ma, hma, rfl⟩, by simp [rowFlag_eq, hf]⟩
+      simp [hall]
+
+omit [Field K] [LinearOrder K] [IsStrictOrderedRing K] in
+/-- `decode_logprobs` (the entry point of the PtrNet / MDAM / MatNet-FFSP loops) only returns feasible actions -/
+theorem decodeLogprobs_feasible (ty : String) (mask : Nat → Bool) (a : Nat) (draws : List Nat) (b : Nat)
+    (h : decodeLogprobs ty mask a draws = .ok b) : mask b = true := by
+  simp only [decodeLogprobs] at h
+  split at h
+  · by_cases hm : mask a = true
+    · simp only [greedy, hm, if_true] at h
+      cases h; exact hm
+    · simp [greedy, hm] at h
+  · split at h
+    · exact sampleLoop_feasible mask draws b h
+    · cases h
 
 /-- **no_infeasible_emitted**: neither `Greedy.step` nor `Sampling.step` can emit an infeasible action:
-greedy returns the (feasible) argmax, sampling whatever it returns is feasible, and a valid first draw
-is returned without resampling. -/
+greedy returns the (feasible) argmax, sampling whatever it returns is feasible and never trips its
+assertion, and a valid first draw is returned without resampling. -/
 theorem no_infeasible_emitted (hw : ExpLike w) (hv : Valid clip c n x mask kth σ) :
     (∀ a, GreedyValid n (processLogits w clip c n x mask kth σ).lg a →
         (stepGreedy w clip c n x mask kth σ a).2 = some a ∧ mask a = true) ∧
-    (∀ draws a, (stepSampling w clip c n x mask kth σ draws).2 = some a → mask a = true) ∧
+    (∀ draws a, (stepSampling w clip c n x mask kth σ draws).2 = .ok a → mask a = true) ∧
+    (∀ draws, (stepSampling w clip c n x mask kth σ draws).2 ≠ .assertFail) ∧
     (∀ a rest, SampleValid n (processLogits w clip c n x mask kth σ).prob a →
-        (stepSampling w clip c n x mask kth σ (a :: rest)).2 = some a) := by
-  refine ⟨?_, ?_, ?_⟩
+        (stepSampling w clip c n x mask kth σ (a :: rest)).2 = .ok a) := by
+  refine ⟨?_, ?_, ?_, ?_⟩
   · intro a ha
     obtain ⟨h1, h2, _⟩ := greedy_is_max hw hv a ha
     exact ⟨h1, h2.2.1⟩
   · intro draws a h
     exact sampleLoop_feasible mask draws a h
+  · intro draws
+    exact sampleLoop_never_asserts mask draws
   · intro a rest ha
     exact (sample_feasible hw hv a ha rest).2
-
 
 /-! ### adding a constant to all logits -/
 
@@ -335,7 +389,7 @@ theorem topK_shift (e : K) (k : Nat) (X X' : Vec (Option K)) (h : ∀ j, X'.get 
   simp only [topKStage]
   split
   · exact h j
-  · simp only [Vec.tab_get, h, ltO_shift]
+  · simp only [Vec.tab_get, h, cmpO_topk, ltO_shift]
     split
     · simp [shiftO]
     · rfl
@@ -391,7 +445,7 @@ theorem valid_shift (hc : c.clipOn = false) (d : K) :
   have hkv : KthValid n c.topK (pre clip c n (fun j => x j + d) mask).get kth ↔ KthValid n c.topK (pre clip c n x mask).get kth := by
     simp only [KthValid, leO, hpre]
   have hsv : SortValid n (afterK clip c n (fun j => x j + d) mask kth).get σ ↔ SortValid n (afterK clip c n x mask kth).get σ := by
-    simp only [SortValid, hK]
+    simp only [sortValid_iff, hK]
   constructor
   · rintro ⟨h1, h2, h3, h4⟩
     exact ⟨h1, h2, h3.imp id hkv.mp, h4.imp id hsv.mp⟩
